@@ -168,4 +168,20 @@ theorem reread_under_anchor (P : Nat) (a : AState) (s : Sess) (r : R P a s) (A o
   have e1' : (((s.step (.setOffset o)).2).step (.read k)).1.st = (specRead ⟨a.src, o⟩ k).1 := e1
   rw [e1', e2']
 
+/-- What `esl_buffer_Get` exposes in a state reached by a valid history: a non-empty prefix of the rest of the input,
+    at least one guaranteed page of it unless the input ends first (the page guarantee of esl_buffer.h). -/
+theorem get_prefix {P : Nat} {a : AState} {s : Sess} (r : R P a s) (hlt : a.cur < a.src.length) :
+    (get s.b).1.st = .ok ∧ (get s.b).1.bytes = a.abs.suffix.take (get s.b).1.n ∧ 0 < (get s.b).1.n ∧
+    min P (a.src.length - a.cur) ≤ (get s.b).1.n := by
+  have hpos := r.at_end_iff.mpr hlt
+  have e : get s.b = (({ st := .ok, bytes := s.b.mem.drop s.b.pos, n := s.b.n - s.b.pos, p := some s.b.pos } : Out), s.b) := by
+    unfold get; rw [if_pos hpos]
+  rw [e]
+  refine ⟨rfl, ?_, by show 0 < s.b.n - s.b.pos; omega, r.loaded_ge⟩
+  show s.b.win = a.abs.suffix.take (s.b.n - s.b.pos)
+  rw [← r.abs_eq]
+  show s.b.win = (s.b.src.drop (s.b.base + s.b.pos)).take (s.b.n - s.b.pos)
+  rw [r.wf.suffix_win, ← win_length, List.take_left']
+  rfl
+
 end EaselModel.Buffer
